@@ -12,7 +12,7 @@ only = None
 if '--only' in sys.argv:
     only = set(sys.argv[sys.argv.index('--only') + 1].split(','))
 checks = [c['property_id'] for c in json.load(open(f'{VERIF}/MANIFEST.json'))['checks']]
-EXTRA = {'C03-1': ['C01'], 'C15-2': ['C14'], 'C03-2': ['C14'], 'C05-1': ['C14'], 'C19-3': ['C01'], 'C05-3': ['C14']}
+EXTRA = {'C03-1': ['C01'], 'C15-2': ['C14'], 'C03-2': ['C14'], 'C05-1': ['C14'], 'C19-3': ['C01'], 'C05-3': ['C14'], 'C13-4': ['C20'], 'C19-4': ['C13'], 'C06-5': ['C08'], 'C02-4': ['C14']}
 
 
 def run(seed_dir: str) -> dict:
